@@ -730,6 +730,9 @@ Proof.
 Qed.
 End IntFormat.
 
+Lemma fits_format32 a : 0 <= a -> (fits 24 a = true <-> generic_format radix2 fexp32 (IZR a)).
+Proof. apply fits_format; lia. Qed.
+
 (* ---------- int64 sources to float targets ---------- *)
 Lemma F2R_int z : F2R (Float radix2 z 0) = IZR z.
 Proof. unfold F2R. cbn. ring. Qed.
@@ -1062,12 +1065,12 @@ Lemma k6_bits k b : is_int_kind k = true -> 0 <= b < two64 ->
   match k with KInt | KInt64 => b =? bits_two63 | KUint | KUint64 => b =? bits_two64 | _ => false end = true.
 Proof.
   intros Hk Hb Hf Hv Hlt.
-  destruct f64_int64_boundary as [[F1 [V1 _]] [F2 [V2 _]]].
-  assert (N1 : IZR two63 <> 0%R) by (apply IZR_neq; discriminate).
-  assert (N2 : IZR two64 <> 0%R) by (apply IZR_neq; discriminate).
-  destruct k; try discriminate; cbn [fmax int_max] in *; try lia.
-  all: apply Z.eqb_eq; apply f64_bits_inj; try assumption; try (unfold bits_two63, bits_two64, two64; lia);
-       try congruence.
+  destruct k; try discriminate; cbn [fmax int_max] in Hlt, Hv; try (exfalso; clear -Hlt; lia).
+  all: destruct f64_int64_boundary as [[F1 [V1 _]] [F2 [V2 _]]].
+  all: assert (N1 : IZR two63 <> 0%R) by (apply IZR_neq; discriminate).
+  all: assert (N2 : IZR two64 <> 0%R) by (apply IZR_neq; discriminate).
+  all: apply Z.eqb_eq; apply f64_bits_inj; try assumption;
+       try (clear; unfold bits_two63, bits_two64, two64; lia); try congruence.
 Qed.
 
 Lemma in_range_zero k : is_int_kind k = true -> in_range k 0 = true.
